@@ -106,9 +106,12 @@ def apply_op(ctx, st, op, case):
                 st.accounts.append(a.account_id)
                 # funded through the provider for THAT account (utxo_add has no account argument and files what it
                 # adds under the default account)
-                w.new_key(account_id=a.account_id)
+                k_acc = w.new_key(account_id=a.account_id)
                 w.utxos_update(account_id=a.account_id)
                 st.flags.add('multi_account')
+                if op.get('fundable'):
+                    # later utxo_add operations may name this key of the new account
+                    st.keys.append(k_acc)
         elif name == 'sweep_account':
             # everything a NON-default account owns is swept to a foreign address and broadcast
             accs = [a for a in getattr(st, 'accounts', [0]) if a != 0]
@@ -135,12 +138,16 @@ def apply_op(ctx, st, op, case):
                 st.flags.add('update_after_broadcast')
         elif name in ('send', 'sweep', 'import_send'):
             bal = int(w.balance())
+            # own destinations are keys of the spending (default) account: the library books a transaction, with all
+            # its outputs, under ONE account, and the statement does not say to which account a payment from one
+            # account of a wallet to another belongs
+            own_keys = [k_ for k_ in st.keys if getattr(k_, 'account_id', 0) == 0] or st.keys
             if name == 'sweep':
-                to = _foreign_addr(op['key']) if op['foreign'] else st.keys[op['key'] % len(st.keys)].address
+                to = _foreign_addr(op['key']) if op['foreign'] else own_keys[op['key'] % len(own_keys)].address
                 t = w.sweep(to, broadcast=op['broadcast'], min_confirms=op.get('min_confirms', 1))
             else:
                 amount = max(1000, bal * op['num'] // op['den'])
-                to = _foreign_addr(op['key']) if op['foreign'] else st.keys[op['key'] % len(st.keys)].address
+                to = _foreign_addr(op['key']) if op['foreign'] else own_keys[op['key'] % len(own_keys)].address
                 if name == 'send':
                     t = w.send_to(to, amount, broadcast=op['broadcast'], min_confirms=op.get('min_confirms', 1))
                 else:
@@ -275,6 +282,14 @@ def check_invariants(ctx, st, case, step):
     for a, b_a, u_a in per_account:
         if b_a != u_a:
             bad('I1.account_balance', 'balance(account_id=%d) %r != sum(utxos(account_id=%d)) %r' % (a, b_a, a, u_a))
+        # the same equation one level down: the keys of an account carry that account's balance
+        try:
+            k_a = sum(k.balance for k in st.w.keys(account_id=a))
+        except Exception as e:
+            bad('observe.raises', 'reading keys(account_id=%d) raised %r' % (a, e))
+        if k_a != b_a:
+            bad('I2.account_keys_balance', 'balance(account_id=%d) %r != sum of the balances of that account\'s keys %r'
+                % (a, b_a, k_a))
     if per_key != total:
         ctx.disc('I2.keys_balance', 'sum(keys()[*].balance) %r != sum(utxos()) %r (after step %d: %r)' %
                  (per_key, total, step, case['ops'][step] if step >= 0 else None), case,
@@ -401,7 +416,7 @@ def _strategy(ctx):
         st.fixed_dictionaries({'op': st.just('delete_received'), 'pick': st.integers(0, 5),
                                'all': st.sampled_from([False, True, True])}),
         st.just({'op': 'remove_unconfirmed'}),
-        st.just({'op': 'new_account'}),
+        st.just({'op': 'new_account'}), st.just({'op': 'new_account', 'fundable': True}),
         st.fixed_dictionaries({'op': st.just('sweep_account'), 'pick': st.integers(0, 3)}),
         st.just({'op': 'reopen'}), st.just({'op': 'second_reader'}),
     )
